@@ -314,7 +314,6 @@ def compile_logical_or_and_and_operator(compiler, expr, operator, args):
         if var is None:
             var = compiler.get_anon_var()
         name = asty.Name(node, id=var, ctx=ast.Store())
-        ret.temp_variables.append(name)
         can_append = False
         return (assignment := asty.Assign(node, targets=[name], value=value))
 
@@ -323,7 +322,6 @@ def compile_logical_or_and_and_operator(compiler, expr, operator, args):
         if var is None:
             stmts.append(put(node, ret.force_expr))
         name = asty.Name(node, id=var, ctx=ast.Load())
-        ret.temp_variables.append(name)
         return name
 
     for value in map(compiler.compile, args):
@@ -1352,8 +1350,10 @@ def compile_match_expression(compiler, expr, root, subject, clauses):
             )
         )
 
-    expr_name = asty.Name(expr, id=return_var.id, ctx=ast.Load())
-    returnable = Result(expr=expr_name, temp_variables=[return_var, expr_name])
+    # We don't give the Result any temp_variables: `Result.rename` would
+    # make an enclosing `setv` assign to its target before the whole form
+    # has been evaluated, which is visible if a later part raises.
+    returnable = Result(expr=asty.Name(expr, id=return_var.id, ctx=ast.Load()))
     ret = Result() + subject
     ret += asty.Assign(
         expr, targets=[return_var], value=asty.Constant(expr, value=None)
@@ -1583,8 +1583,10 @@ def compile_try_expression(compiler, expr, root, body, catchers, orelse, finalbo
         finalbody += finalbody.expr_as_stmt()
         finalbody = finalbody.stmts
 
-    expr_name = asty.Name(expr, id=return_var.id, ctx=ast.Load())
-    returnable = Result(expr=expr_name, temp_variables=[return_var, expr_name])
+    # We don't give the Result any temp_variables: `Result.rename` would
+    # make an enclosing `setv` assign to its target before the whole form
+    # has been evaluated, which is visible if a later part raises.
+    returnable = Result(expr=asty.Name(expr, id=return_var.id, ctx=ast.Load()))
     body += (
         body.expr_as_stmt()
         if orelse
